@@ -145,6 +145,40 @@ def fam_solid(ctx, rng):
         ctx.violation(kind + ':interior_point', 'known interior point reported outside', desc)
 
 
+def fam_concave_caps(ctx, rng):
+    """a prism over a concave base, one cap given wound inward and started at EVERY one of its vertices in turn (reflex corners
+    included): the re-oriented solid is outward and has the enclosed volume"""
+    frame = G.rational_frame(rng); o = G.rpt3(rng, 100.0)
+    emb = lambda p, h=0.0: P3(tuple(o[i] + p[0] * frame[0][i] + p[1] * frame[1][i] + h * frame[2][i] for i in range(3)))
+    if rng.random() < 0.5:
+        b = [(0.0, 0.0), (6.0, 0.0), (6.0, 2.0), (2.0, 2.0), (2.0, 5.0), (0.0, 5.0)]
+    else:
+        b = G.star_polygon(rng, n=rng.randint(5, 8), R=10.0, center=(0.0, 0.0))
+    h = G.dy(rng.uniform(1, 9))
+    base = Face3D([emb(p) for p in b])
+    faces = list(Polyface3D.from_offset_face(base, h).faces)
+    ref = abs(exact_volume(faces))
+    # the two caps are the faces with as many vertices as the base
+    caps = [i for i, f in enumerate(faces) if len(f.boundary) == len(b)]
+    for ci in caps[:2]:
+        cap = faces[ci]
+        for k in range(len(b)):
+            bd = list(cap.boundary)
+            bd = bd[k:] + bd[:k]
+            inward = Face3D(bd[::-1])
+            trial = list(faces); trial[ci] = inward
+            desc = {'base': b, 'height': h, 'cap': ci, 'start': k, 'frame': frame, 'origin': o}
+            ctx.count('solid.concave_cap', key=(len(b), ci, k), sample=desc)
+            try:
+                pf = Polyface3D.from_faces(trial, TOL)
+                vol = exact_volume(pf.faces)
+            except Exception as e:
+                ctx.violation('solid.concave_cap:raises', '%r' % (e,), desc); return
+            if vol <= 0 or not X.close(vol, ref, 1e-8) or not X.close(pf.volume, ref, 1e-8):
+                ctx.violation('solid.concave_cap:not_outward', 'cap given inward from vertex %d: volume %r (faces give %r), enclosed volume %r' % (
+                    k, pf.volume, float(vol), float(ref)), desc); return
+
+
 def fam_open(ctx, rng):
     fam, faces, inside = solid_faces(rng)
     mode = rng.choice(['remove1', 'remove2', 'duplicate'])
@@ -187,7 +221,7 @@ def fam_mesh(ctx, rng):
     check_edges(ctx, 'mesh', m, [[tuple(face)] for face in m.faces], desc)
 
 
-FAMILIES = [(fam_solid, 60), (fam_open, 40), (fam_mesh, 100)]
+FAMILIES = [(fam_concave_caps, 8), (fam_solid, 60), (fam_open, 40), (fam_mesh, 100)]
 
 
 def explore(ctx):
